@@ -293,4 +293,8 @@ def run(F, rep):
     from engines import rule_accumulators
     rule_accumulators(F, rep, 'C13.A1', lambda g: g.file.endswith('/annotator.cpp'), 2, 'annotator.cpp', 'whether an entry was already recorded must not depend on the last entry compared')
 
+    # ------------------------------------------------------------------ W: walks over the component tree are complete
+    import recursion as _recw
+    _recw.rule_walkers(F, rep, 'C13.W1', ['listComponentIdsAndItems', 'doClearComponentIds', 'doSetComponentTreeTypeIds', 'doUpdateComponentHash', 'listComponentIds'], 5, 'indexing, assigning and clearing ids')
+
 
